@@ -142,6 +142,8 @@ def check(ctx):
                   step2, False, at_exit2, instance=f"{cls}.close wakes all of {other_q} when the last clone closes")
         zkeys = {z[0] for z in zero}
         tests = [n for n in own_walk(close.node) if isinstance(n, ast.If) and F(ast.unparse(n.test))[0] in zkeys]      # either orientation
+        # (or the comparison bound to a flag that is tested afterwards - the automata above follow it through the path facts)
+        tests += [n for n in own_walk(close.node) if isinstance(n, ast.Assign) and isinstance(n.value, ast.Compare) and F(ast.unparse(n.value))[0] in zkeys]
         ctx.need("R13-b", close, f"test for the last clone (`{ctr} == 0`)", len(tests), 1)
         if clears:
             cl = ctx.sites(close, f"self._state.{other_q}.clear()") or [(d, {}) for d in drains]
